@@ -76,6 +76,17 @@ Theorem start_discard_aligns_or_keeps :
 Proof. exact start_aligns_or_keeps. Qed.
 Print Assumptions start_discard_aligns_or_keeps.
 
+Theorem reads_are_prefix_of_writes_any_pointer_base :
+  forall c b ops, 2 <= c -> 0 <= b -> (forall o, In o ops -> is_discard o = false) ->
+    reads_prefix_of_writes (combine ops (snd (run (create_at c b) ops))).
+Proof. exact ring_reads_are_prefix_of_writes_at. Qed.
+Print Assumptions reads_are_prefix_of_writes_any_pointer_base.
+
+Theorem checker_sound_any_pointer_base :
+  forall base h, C18_check_at base h = true -> no_discards h -> reads_prefix_of_writes h.
+Proof. exact checker_at_sound_prefix. Qed.
+Print Assumptions checker_sound_any_pointer_base.
+
 Theorem ring_refines_fifo_refuted_pre_fix :
   C18_check old_witness = false /\ returned old_witness = [0;1;2;3;4;4;5;6].
 Proof. exact ring_refines_fifo_refuted_before_fix. Qed.
